@@ -49,6 +49,14 @@ CLAIMED = {
    text="Population of honest proofs (primitive-only; with Poseidon2 and recompose tables) and invalid-trace proofs made by the byzantine prover; the transport sets every metadata field outside `proof` to every value of a small well-formed set (plus option flips, string swaps, list swap/drop/duplicate, sampled pairs) and round-trips every member through postcard and JSON; no faulted invalid-trace proof may be accepted, metadata contradicting the verifier's field parameters must be rejected, round trips must preserve verdict and content.",
    note="A panicking native verifier counts as a rejection for this property (counted in the evidence, thousands of cases, mostly stark_common / packing fields).",
    technique="deterministic simulation with metadata-fault enumeration and serialization transport"),
+ "C17": dict(level="exploration", ref="DESIGN §5 C17",
+   text="History-dependent durable state: call histories over a growing pool of proofs and cache slots (NEXT / AGG with cache None, Build, Reuse), every output verified natively and fed to later steps; the reference model is the uncached twin of each call; stale-state faults offer a cache prepared for another circuit, including a near-miss pair with identical size counters; a stale offer must be refused or recomputed (never panic, never an unverifiable proof, never silently the other circuit's verifying data) and later steps must still succeed.",
+   note="KoalaBear D=4 with the real FriRecursionBackend; FriRecursionConfig wrapper copied from the repository's examples. Known findings (stale caches) in known_findings.json.",
+   technique="deterministic simulation: seeded call histories with stale-state faults against an uncached reference twin"),
+ "C19": dict(level="fault_enumeration", ref="DESIGN §5 C19",
+   text="Input-fault plans (withheld, short, long, duplicated, conflicting inputs and private data) on circuits whose inputs are consumed by ALU ops, hints, the recompose table, Poseidon2 permutations and Merkle checks, executed by two builds of the same harness that differ only in debug-assertions, each in a crash-isolated worker; outcome streams (ok + trace digest, error class, panic, abort) must be identical and faults that must fail must not report success.",
+   note="No Miri arm: agreement of the two builds is evidence, not proof, of absence of undefined behaviour on the unchecked path.",
+   technique="deterministic simulation with input-fault enumeration on twin build configurations, crash-isolated workers"),
  "C05": dict(level="exploration", ref="DESIGN §5 C05",
    text="Stateful component driven through seeded operation histories and compared step by step with a small executable reference model (the native DuplexChallenger) in six configurations, recompose table on/off, seeded hash order; a failing history is minimised to a few operations.",
    note="p3_challenger::DuplexChallenger is the reference model; observed values are public inputs so the builder cannot fold them.",
